@@ -45,6 +45,7 @@ type JSONGenConfig struct {
 	BigNums   bool
 	Escapes   bool
 	Wide      bool // some containers get 17-60 children (size thresholds)
+	Deep      int  // > 0: one value wrapped in that many nested containers inside an object with later members
 }
 
 func DrawJSONConfig(t *simkit.Tape) JSONGenConfig {
@@ -60,6 +61,9 @@ func DrawJSONConfig(t *simkit.Tape) JSONGenConfig {
 	c.BigNums = t.Bool(1, 2)
 	c.Escapes = t.Bool(2, 3)
 	c.Wide = t.Bool(1, 6)
+	if t.Bool(1, 20) {
+		c.Deep = []int{33, 63, 64, 65, 66, 129, 300}[t.Draw(7)]
+	}
 	return c
 }
 
@@ -166,6 +170,19 @@ func GenJSON(t *simkit.Tape, cfg JSONGenConfig) []*JV {
 	for i := 0; i < cfg.TopLevel; i++ {
 		g.nodes = 0
 		out = append(out, g.value(1))
+	}
+	if cfg.Deep > 0 {
+		// {"k": [[[ ... {"d": v} ... ]]], "z": 1, "y": [2]}: members AFTER a deep value
+		inner := &JV{Kind: JObj, Members: []JMember{{"d", g.value(cfg.MaxDepth)}}}
+		var v *JV = inner
+		for i := 0; i < cfg.Deep; i++ {
+			if t.Bool(1, 4) {
+				v = &JV{Kind: JObj, Members: []JMember{{"n", v}, {"after", &JV{Kind: JNum, Num: float64(i)}}}}
+			} else {
+				v = &JV{Kind: JArr, Items: []*JV{v}}
+			}
+		}
+		out = append(out, &JV{Kind: JObj, Members: []JMember{{"k", v}, {"z", &JV{Kind: JNum, Num: 1}}, {"y", &JV{Kind: JArr, Items: []*JV{{Kind: JNum, Num: 2}}}}}})
 	}
 	return out
 }
